@@ -67,6 +67,14 @@ INFO = {
  "C12_6": ("presets built lazily; the call that builds one returns the stored object itself", "get_preset_constraints(name) as the first use of that preset in the process, then caller-side mutation", True, "harness error at first (exit 2, not a verdict: the harness read the private preset store for its expected values); now the expected presets are the documented tables (vf/docs.py), the per-path reset restores 'not built yet', and the replayer runs C12 histories on a freshly imported package; caught as C12:preset-changed"),
  "C14_6": ("get_alphabet_from_selfies joins the collection with '.' and splits once", "an empty string in an interior position of the collection, or two trailing empty strings", True, "missed (collections of at most two strings); caught after the three-string CrossHair contract and the E1 collection part (3 strings, each empty / one / two symbols, list or one-shot iterator) were added"),
  "C15_6": ("batch_flat_hot_to_selfies computes the row count from the first vector only", "a batch of flat vectors of different lengths", False, ""),
+ "C04_7": ("inversion count skips pairs involving the last out-bond (loop bounds `range(last)` / `range(i + 1, last)`)", "a stereocentre that is the only atom of a branch (or first of a later component) with nothing but ring digits after it", False, ""),
+ "C05_7": ("implicit-aromatic test for ring closures `bonds[1] is None`: a '-' or '=' written on one ring digit only is ignored between aromatic atoms", "non-benzenoid fused systems with a one-sided '-' closure (c12c(cc-1)cccc2), or pyrrole-type rings with such a closure", True, "missed (aromatic inputs had no one-sided bond symbol on a closure outside benzenoid fusions); caught after M-SKEL learnt to write ring-bond symbols on the opening label, the closing label or both and C05 got the 5-atom aromatic skeleton level with '-' / '='"),
+ "C07_7": ("set_semantic_constraints returns early when the submitted dict equals the table in force, and stores the caller's dict itself", "set a dict, edit that same object in place, pass it again", True, "missed by C07 (no sequence of two accepted tables) and masked in C12 by the known aliasing finding (the concrete oracle stopped at the first problem); caught after C07 part iv (A, use, B as fresh dict / same object edited / equal dict), the history operation edit_and_reset in C11/C12, and the C12 oracle no longer lets the known finding end a history"),
+ "C11_7": ("'too many Hs' test of process_atom_symbol only on a cache miss", "H-bearing symbol decoded under a loose table, table tightened below the H count, decoded again", False, ""),
+ "C13_7": ("[nop] skipped where symbols are consumed; in _read_index_from_selfies a [nop] at the end of a fragment leaves both itself and None in the index list", "a long fragment that ends inside a 2/3-symbol index followed by [nop]", True, "missed (needs >= 18 atoms before the ring symbol for the extra factor 16 to change the target); caught after the part '20-atom chain + ring/branch symbol + 3 symbols among index symbols and [nop] at the end of the string / fragment'"),
+ "C16_7": ("get_index_from_selfies in Horner form with `if c is None: break`", "a three-symbol index with two symbols missing at the end of the string", False, ""),
+ "C17_7": ("ring-bond token's output index computed after the ring number is appended", "attribute=True and a ring closure that keeps a bond character", False, ""),
+ "C18_7": ("modernize_symbol memoises [...expl] atoms keyed on the atom part but stores the prefixed result", "the same expl atom with two different bond prefixes in one process", False, ""),
 }
 only = sys.argv[1:]
 for label in sorted(os.listdir(os.path.join(HERE, "seeded"))):
